@@ -214,7 +214,9 @@ def compute_combined_features(
 
     if args.reference_model_JSON != '':
         model_combinations = extract_features_from_reference_JSON(args.reference_model_JSON, combined_features_only=True)
-        model_combinations = [tuple(sorted(combination.split(','))) for combination in model_combinations]
+        # The extracted features form a set: iterate it in sorted order so that the constructed columns (and with them the
+        # orientation of the scored pairs) do not depend on the string hash seed of the process
+        model_combinations = [tuple(sorted(combination.split(','))) for combination in sorted(model_combinations)]
         if not is_prior_heuristic(args):
             full_combination_space = model_combinations
 
